@@ -38,9 +38,12 @@ CATALOG = {
               functions=[GRAMMAR, FIND, REGEXES, TOKENS]),
             S("s-c06-placement-structured", "c10_templates", {"structured": True, "quick": True}, {"structured": True, "quick": False}, shards=6),
             S("s-c06-placement-plain", "c10_templates", {"structured": False, "quick": True}, {"structured": False, "quick": False}, shards=6)],
-    "C10": [S("s-c10-plain", "c10_templates", {"structured": False, "quick": True}, {"structured": False, "quick": False}, shards=6),
+    "C10": [S("s-c10-multi-config", "c10_multi_config", {}, shards=3),
+            S("s-c10-plain", "c10_templates", {"structured": False, "quick": True}, {"structured": False, "quick": False}, shards=6),
             S("s-c10-structured", "c10_templates", {"structured": True, "quick": True}, {"structured": True, "quick": False}, shards=6)],
-    "C11": [S("s-c11-freeform", "c11_freeform", {"n": 16}, {"n": 22}),
+    "C11x": [],
+    "C11": [S("s-c11-multi-config", "c10_multi_config", {}, shards=3),
+            S("s-c11-freeform", "c11_freeform", {"n": 16}, {"n": 22}),
             S("s-c11-names", "c11_names", {}, shards=2),
             S("s-c11-strings", "c11_strings", {"n_body": 10}, {"n_body": 14})],
     "C12": [S("s-c12-rule", "c12_rule", {"m": 19}, {"m": 24}, functions=[REGEXES, "str::parse::<u32> (as decimal value <= 4294967295; cross-checked by Kani harness u_parse in the thorough tier)"]),
